@@ -425,6 +425,10 @@ impl Sim {
         n.online_at = at_us;
         n.fdl.set_offline();
         n.started = false;
+        let mut b = self.bus.0.borrow_mut();
+        for c in b.ref_sa_seen[idx].iter_mut() {
+            *c = 0;
+        }
     }
 }
 
